@@ -15,10 +15,10 @@ Proof. exact eof_outcomes. Qed.
 (* with C02 this is the behaviour of both connections under every segmentation, and the complete
    responses before the end are still delivered: the run is [responses ++ one terminal outcome] *)
 Theorem c10_run_shape : forall fuel c r,
-  wf_reader r -> pol_ok (c_policy c) (length (c_buf c)) -> (length (stream (c_buf c) r) < fuel)%nat ->
+  wf_reader r -> pol_ok (c_policy c) (length (c_buf c)) -> c_state c = Initial -> (length (stream (c_buf c) r) < fuel)%nat ->
   exists rs o, run fuel 0 c r = map Resp rs ++ [o] /\ (forall x, o <> Resp x).
 Proof.
-  intros fuel c r W P F. rewrite (run_ref fuel c r W P). apply ref_run_terminal. exact F.
+  intros fuel c r W P S0 F. rewrite (run_ref fuel c r W P S0). apply ref_run_terminal. exact F.
 Qed.
 
 (* once something of a response has been consumed the builder never reports "nothing in progress" *)
